@@ -269,6 +269,13 @@ func (c *Cmd) Lattice(f *Field, thorough bool) []Choice {
 				v.FieldByName("Dialects").Set(reflect.ValueOf(append([]string{}, dialectNames[:n]...)))
 			})
 		}
+		// a zero-length dialect string (entry 02 00) in every position of a short list
+		for i, l := range [][]string{{""}, {"", "NT LM 0.12"}, {"NT LM 0.12", ""}, {"A", "", "B"}, {"", ""}} {
+			l := l
+			add(fmt.Sprintf("dialects-with-empty%d", i), func(v reflect.Value) {
+				v.FieldByName("Dialects").Set(reflect.ValueOf(append([]string{}, l...)))
+			})
+		}
 	}
 	return out
 }
